@@ -45,6 +45,16 @@ type LimitCfg struct {
 	WinMax       int64  `json:"win_max,omitempty"`
 	WinThreshold int64  `json:"win_threshold,omitempty"`
 	JitterSeed   int64  `json:"jitter_seed"`
+	// AlgoDebug: the algorithm itself (Vegas, Gradient, Gradient2) is constructed with a logger that has debug output
+	// enabled, so every argument of its trace lines is really evaluated (the text is dropped)
+	AlgoDebug bool `json:"algo_debug,omitempty"`
+	// Outer2: one more wrapper around everything else, built directly on the wrapper below it (no recording
+	// pass-through in between): "" | windowed | traced. Its window parameters are the Win2* fields.
+	Outer2        string `json:"outer2,omitempty"`
+	Win2Size      int32  `json:"win2_size,omitempty"`
+	Win2Min       int64  `json:"win2_min,omitempty"`
+	Win2Max       int64  `json:"win2_max,omitempty"`
+	Win2Threshold int64  `json:"win2_threshold,omitempty"`
 	// Ctor: "" = the long constructor; "default" = NewDefaultAIMDLimit / NewDefaultVegasLimit / NewDefaultGradient2Limit
 	// (every parameter is then the library's own choice); "default_limit" = NewDefaultVegasLimitWithLimit(Initial).
 	Ctor string `json:"ctor,omitempty"`
@@ -285,6 +295,10 @@ func buildLimit(c LimitCfg, reg core.MetricRegistry) built {
 // defaults: the constructor may then reject the combination (e.g. a minimum above the default maximum).
 func tryBuildLimit(c LimitCfg, reg core.MetricRegistry) (built, error) {
 	rand.Seed(c.JitterSeed)
+	var logger limit.Logger
+	if c.AlgoDebug {
+		logger = debugDiscardLogger{}
+	}
 	var inner core.Limit
 	switch c.Algo {
 	case "aimd":
@@ -295,11 +309,11 @@ func tryBuildLimit(c LimitCfg, reg core.MetricRegistry) (built, error) {
 		inner = limit.NewAIMDLimit("t", c.Initial, c.Backoff, c.IncreaseBy, reg)
 	case "vegas":
 		if c.Ctor == "default" {
-			inner = limit.NewDefaultVegasLimit("t", nil, reg)
+			inner = limit.NewDefaultVegasLimit("t", logger, reg)
 			break
 		}
 		if c.Ctor == "default_limit" {
-			inner = limit.NewDefaultVegasLimitWithLimit("t", c.Initial, nil, reg)
+			inner = limit.NewDefaultVegasLimitWithLimit("t", c.Initial, logger, reg)
 			break
 		}
 		var noLoad core.MeasurementInterface
@@ -309,15 +323,15 @@ func tryBuildLimit(c LimitCfg, reg core.MetricRegistry) (built, error) {
 		case "expavg":
 			noLoad = measurements.NewExponentialAverageMeasurement(20, 3)
 		}
-		inner = limit.NewVegasLimitWithRegistry("t", c.arg("initial", c.Initial), noLoad, c.arg("max", c.Max), c.argF("smoothing", c.Smoothing), vegasIntFn(c.VAlpha), vegasIntFn(c.VBeta), vegasIntFn(c.VThr), vegasFloatFn(c.VInc), vegasFloatFn(c.VDec), c.ProbeMult, nil, reg)
+		inner = limit.NewVegasLimitWithRegistry("t", c.arg("initial", c.Initial), noLoad, c.arg("max", c.Max), c.argF("smoothing", c.Smoothing), vegasIntFn(c.VAlpha), vegasIntFn(c.VBeta), vegasIntFn(c.VThr), vegasFloatFn(c.VInc), vegasFloatFn(c.VDec), c.ProbeMult, logger, reg)
 	case "gradient":
-		inner = limit.NewGradientLimitWithRegistry("t", c.arg("initial", c.Initial), c.arg("min", c.Min), c.arg("max", c.Max), c.argF("smoothing", c.Smoothing), queueFunc(c.Queue), c.argF("tol", c.RTTTol), c.ProbeInterval, nil, reg)
+		inner = limit.NewGradientLimitWithRegistry("t", c.arg("initial", c.Initial), c.arg("min", c.Min), c.arg("max", c.Max), c.argF("smoothing", c.Smoothing), queueFunc(c.Queue), c.argF("tol", c.RTTTol), c.ProbeInterval, logger, reg)
 	case "gradient2":
 		if c.Ctor == "default" {
-			inner = limit.NewDefaultGradient2Limit("t", nil, reg)
+			inner = limit.NewDefaultGradient2Limit("t", logger, reg)
 			break
 		}
-		g, err := limit.NewGradient2Limit("t", c.arg("initial", c.Initial), c.arg("max", c.Max), c.arg("min", c.Min), queueFunc(c.Queue), c.argF("smoothing", c.Smoothing), c.arg("lw", c.LongWindow), nil, reg)
+		g, err := limit.NewGradient2Limit("t", c.arg("initial", c.Initial), c.arg("max", c.Max), c.arg("min", c.Min), queueFunc(c.Queue), c.argF("smoothing", c.Smoothing), c.arg("lw", c.LongWindow), logger, reg)
 		if err != nil {
 			return built{}, err
 		}
@@ -348,6 +362,16 @@ func tryBuildLimit(c LimitCfg, reg core.MetricRegistry) (built, error) {
 		} else {
 			outer = limit.NewTracedLimit(outer, limit.NoopLimitLogger{})
 		}
+	}
+	switch c.Outer2 {
+	case "windowed":
+		w, err := limit.NewWindowedLimit("w2", c.Win2Min, c.Win2Max, c.Win2Size, c.Win2Threshold, outer, nil)
+		if err != nil {
+			panic(err)
+		}
+		outer = w
+	case "traced":
+		outer = limit.NewTracedLimit(outer, debugDiscardLogger{})
 	}
 	return built{Outer: outer, Inner: inner, Tap: tap}, nil
 }
@@ -457,6 +481,7 @@ func genLimitCfg(t *rapid.T, algos []string, allowWrappers bool) LimitCfg {
 	case "settable", "fixed":
 		c.Initial = rapid.IntRange(0, 300).Draw(t, "initial")
 	}
+	c.AlgoDebug = rapid.IntRange(0, 3).Draw(t, "algoDebug") == 0
 	if allowWrappers {
 		c.Windowed = rapid.IntRange(0, 3).Draw(t, "windowed") == 0
 		c.Traced = rapid.IntRange(0, 3).Draw(t, "traced") == 0
@@ -466,6 +491,16 @@ func genLimitCfg(t *rapid.T, algos []string, allowWrappers bool) LimitCfg {
 			c.WinMin = int64(rapid.IntRange(100, 300).Draw(t, "wmin")) * 1e6
 			c.WinMax = c.WinMin + int64(rapid.IntRange(0, 300).Draw(t, "wmaxd"))*1e6
 			c.WinThreshold = rapid.SampledFrom([]int64{0, 1, 1000, 1e5}).Draw(t, "wthr")
+		}
+		if (c.Windowed || c.Traced) && rapid.IntRange(0, 2).Draw(t, "outer2") == 0 {
+			// wrappers stacked on wrappers (a window over a window, a trace around a window around a trace, ...)
+			c.Outer2 = rapid.SampledFrom([]string{"windowed", "windowed", "traced"}).Draw(t, "outer2kind")
+			if c.Outer2 == "windowed" {
+				c.Win2Size = int32(rapid.IntRange(10, 14).Draw(t, "w2size"))
+				c.Win2Min = int64(rapid.IntRange(100, 300).Draw(t, "w2min")) * 1e6
+				c.Win2Max = c.Win2Min + int64(rapid.IntRange(0, 300).Draw(t, "w2maxd"))*1e6
+				c.Win2Threshold = rapid.SampledFrom([]int64{0, 1, 1000, 1e5}).Draw(t, "w2thr")
+			}
 		}
 	}
 	return c
@@ -483,7 +518,7 @@ func genRTT() *rapid.Generator[int64] {
 
 func genSamples(t *rapid.T, c LimitCfg, maxN int) []Sample {
 	dropPct := rapid.SampledFrom([]int{0, 5, 30, 100}).Draw(t, "droppct")
-	startsOutOfOrder := !c.Windowed && rapid.Bool().Draw(t, "startsOutOfOrder")
+	startsOutOfOrder := !c.Windowed && c.Outer2 != "windowed" && rapid.Bool().Draw(t, "startsOutOfOrder")
 	one := rapid.Custom(func(t *rapid.T) Sample {
 		s := Sample{RTT: genRTT().Draw(t, "rtt")}
 		switch rapid.IntRange(0, 6).Draw(t, "infk") {
@@ -503,7 +538,7 @@ func genSamples(t *rapid.T, c LimitCfg, maxN int) []Sample {
 			s.Inf = math.MaxInt32
 		}
 		s.Drop = rapid.IntRange(0, 99).Draw(t, "drop") < dropPct
-		if c.Windowed {
+		if c.Windowed || c.Outer2 == "windowed" {
 			s.Start = rapid.Int64Range(0, 200_000_000).Draw(t, "dt") // made cumulative below
 		} else if startsOutOfOrder {
 			// completions are reported in any order relative to when their requests started
@@ -516,7 +551,7 @@ func genSamples(t *rapid.T, c LimitCfg, maxN int) []Sample {
 		lo = minInt(rapid.SampledFrom([]int{1, 1, 8, 30, 100}).Draw(t, "minlen"), maxN)
 	}
 	out := rapid.SliceOfN(one, lo, maxN).Draw(t, "samples")
-	if c.Windowed {
+	if c.Windowed || c.Outer2 == "windowed" {
 		start := int64(0)
 		for i := range out {
 			start += out[i].Start
